@@ -326,6 +326,7 @@ def check_rmv_oracle(case):
     n = len(xs)
     m, v = sl.mean(xs), sl.var(xs)
     valid = all(s > 0 for s in ss)
+    matol = Fraction(1, 10 ** 9) * sum((abs(x) for x in xs), Fraction(0)) / n      # mean-like numbers may cancel to ~0
     q.set_error_method("derivative")
     a = sl.build(["repeated", case["xs"], case["errs"], case.get("container", "list")])
     k, c = fx(case["k"]), fx(case["c"])
@@ -339,14 +340,14 @@ def check_rmv_oracle(case):
         for key in ("mean", "std", "eom", "value", "error"):
             if o[key] in (None, "inf"):
                 return None, "{}: {} is not finite".format(where, key)
-        if not sl.close(fr(o["mean"]), m):
+        if not sl.close(fr(o["mean"]), m, 1e-9, matol):
             return None, "{}: mean {} is not sum/n = {}".format(where, fx(o["mean"]), float(m))
         if not sl.sqrt_close(fx(o["std"]), v):
             return None, "{}: std {} is not sqrt(sum (x-mean)^2/(n-1)) = {}".format(where, fx(o["std"]), math.sqrt(v))
         if not sl.sqrt_close(fx(o["eom"]), v / n):
             return None, "{}: error_on_mean {} is not std/sqrt(n) = {}".format(where, fx(o["eom"]), math.sqrt(v / n))
         if valid:
-            if o["wmean"] in (None, "inf") or not sl.close(fr(o["wmean"]), sl.wmean(xs, ss)):
+            if o["wmean"] in (None, "inf") or not sl.close(fr(o["wmean"]), sl.wmean(xs, ss), 1e-9, matol):
                 return None, "{}: error_weighted_mean {} is not sum(x/s^2)/sum(1/s^2) = {}".format(
                     where, o["wmean"] and fx(o["wmean"]), float(sl.wmean(xs, ss)))
             if o["perr"] in (None, "inf") or not sl.sqrt_close(fx(o["perr"]), sl.perr_sq(ss)):
